@@ -30,10 +30,13 @@ def run(tier):
     if tier == "quick":
         mc = ["MC_Collection_c04.cfg"]
         plan = [("unique", 8, 9, OPS, "crash", 0.5),
-                ("unique", 25, 16, OPS + ["reopen"], "clean", 0.5)]
+                ("unique", 25, 16, OPS + ["reopen"], "clean", 0.5),
+                ("multi", 10, 14, OPS + ["reopen"], "clean", 0.5)]
     else:
         mc = ["MC_Collection_c04.cfg", "MC_Collection_thorough.cfg"]
         plan = [("unique", 80, 12, OPS, "crash", 0.5),
+                ("multi", 100, 18, OPS + ["reopen"], "clean", 0.5),
+                ("multi", 20, 10, OPS, "crash", 0.5),
                 ("unique", 300, 20, OPS + ["reopen"], "clean", 0.5),
                 ("unique", 4, 7, OPS, "nested", 0.5)]
     return cc.run_property(
@@ -46,7 +49,8 @@ def run(tier):
         "state of every interleaving at the yield points of BTreeIndex::insert/remove) and 2-3 real threads claiming "
         "/ releasing one unique value under every schedule, each step validated against BTreeConcTrace",
         ["sequential callers (concurrent writers: C05 / C10)",
-         "unique scalar field k (values 1 and 3, 2 and 6 collide); multi-field indexes share the same B-tree path"],
+         "unique scalar field k (values 1 and 3, 2 and 6 collide) and, in group multi, the always-unique multi-field "
+         "index c = (a, b) (two documents of the same value collide) next to an array-valued index"],
         extra=_threads)
 
 
